@@ -265,10 +265,10 @@ def step (env : Env) (i : Instr) (s : Stack) : Res Stack :=
       else .err
   | .EQ => do
       let (a, s) ← s.pop1
-      match a with | .num .int x => pure (s.push (.bool (x == 0))) | _ => .err
+      match a with | .num .int x => pure (s.push (.bool (decide (x = 0)))) | _ => .err
   | .NEQ => do
       let (a, s) ← s.pop1
-      match a with | .num .int x => pure (s.push (.bool (x != 0))) | _ => .err
+      match a with | .num .int x => pure (s.push (.bool (decide (x ≠ 0)))) | _ => .err
   | .LT => do
       let (a, s) ← s.pop1
       match a with | .num .int x => pure (s.push (.bool (x < 0))) | _ => .err
